@@ -31,6 +31,7 @@ use crate::compiler::{BasicCompileContext, CompileContextWrapper};
 use crate::util::{toposort, u8_from_number, TopoSortItem};
 
 const MACRO_TIME_LIMIT: usize = 1000000;
+const MACRO_DEPTH_LIMIT: usize = 200;
 const CONST_EVAL_LIMIT: usize = 1000000;
 
 /* As in the python code, produce a pair whose (thanks richard)
@@ -385,6 +386,15 @@ pub fn process_macro_call(
     args: Vec<Rc<BodyForm>>,
     code: Rc<SExp>,
 ) -> Result<CompiledCode, CompileErr> {
+    // The output of a macro is compiled in turn; a macro whose output always
+    // calls it again would never finish.
+    if context.macro_depth >= MACRO_DEPTH_LIMIT {
+        return Err(CompileErr(
+            l,
+            format!("macro output is a macro call more than {MACRO_DEPTH_LIMIT} levels deep"),
+        ));
+    }
+
     let converted_args: Vec<Rc<SExp>> = args.iter().map(|b| b.to_sexp()).collect();
     let mut swap_table = HashMap::new();
     let args_to_macro = list_to_cons(l.clone(), &converted_args);
@@ -408,7 +418,12 @@ pub fn process_macro_call(
         let relabeled_expr = relabel(&swap_table, &v);
         compile_bodyform(opts.clone(), Rc::new(relabeled_expr))
     })
-    .and_then(|body| generate_expr_code(context, opts, compiler, Rc::new(body)))
+    .and_then(|body| {
+        context.macro_depth += 1;
+        let result = generate_expr_code(context, opts, compiler, Rc::new(body));
+        context.macro_depth -= 1;
+        result
+    })
 }
 
 fn generate_args_code(
